@@ -39,6 +39,21 @@ def histories(bg, rng, tier):
                 c = bg.call(name)
                 if c:
                     yield wrap(bg, c, rng)
+    # context-dependent literals whose width comes from a NON-constant value defined inside the function
+    for k in range(12 if tier == "thorough" else 4):
+        w = rng.choice([0x40, 0x40, 0x20, 0x10])
+        lit = lambda: ("Q%x" % rng.randrange(1 << 64)) if w == 0x40 else ("L%x" % rng.randrange(1 << 32))
+        if k % 2 == 0:
+            yield ["type_int %x %x" % (w, rng.randrange(2)), "begin_function 1 _ 0 3", "function_parameter 1", "begin_block _",
+                   "switch 3 4 [%s:4,%s:4]" % (lit(), lit()), "end_function"]
+        else:
+            yield ["type_int %x %x" % (w, rng.randrange(2)), "begin_function 1 _ 0 3", "begin_block _", "i_add 1 _ 9 9",
+                   "switch 4 3 [%s:3]" % lit(), "end_function"]
+    # the version set LAST on the builder is the one the module carries
+    for k in range(6 if tier == "thorough" else 3):
+        h = ["set_version %x %x" % (rng.randrange(1, 3), rng.randrange(0, 7)) for _ in range(rng.randrange(2, 4))]
+        h.insert(rng.randrange(len(h)), "capability 1")
+        yield h
     # random complete histories
     names = bg.emitting_methods()
     mod_level = [n for n in names if bg.sink_of(n) in ("section", "dedup_type", "memory_model") and not n.endswith("_bit64")]
@@ -64,6 +79,8 @@ def histories(bg, rng, tier):
             h.append("end_function")
         for _ in range(rng.randrange(0, 3)):
             h.append(bg.call(rng.choice(mod_level)))
+        if rng.random() < 0.2:
+            h.insert(rng.randrange(len(h) + 1), "set_version %x %x" % (rng.randrange(1, 3), rng.randrange(0, 7)))
         if all(h):
             yield h
 
